@@ -109,7 +109,8 @@ def check_case(ctx, cs, defs):
             ctx.violate(cls + ".__deepcopy__", tg + ["raises"], small, {"exception": repr(e)[:300]})
 
 
-THEOREMS = ["T_WellFormed", "P_ReadPure (readers and sampling changes never change the definition)"]
+THEOREMS = ["T_WellFormed", "P_ReadPure (readers and sampling changes never change the definition)",
+            "CacheDiscipline: no stale flag is reachable in the complete flag graph built from the probed Populates/Effect tables"]
 
 
 def run(ctx):
@@ -138,6 +139,9 @@ def run(ctx):
     nc = sum(1 for tag, cs in resc.cases if check_container(ctx, cs))
     ctx.extra["container_histories"] = nc
     n += nc
+    # finite abstraction over ALL histories: implementation-shaped tables probed from the working tree, complete flag graph by TLC
+    from .. import cacheprobe
+    cacheprobe.cache_discipline_check(ctx)
     ctx.traces = n
     ctx.extra.update({"histories_ending_in_mutator": muts, "histories_total": len(res.cases)})
     from .. import tracedrv
@@ -223,5 +227,9 @@ def replay(ctx, v):
     full = v["full"]
     if "ver" in full:
         check_container(ctx, full)
+        return
+    if "cache_discipline" in full:
+        from .. import cacheprobe
+        cacheprobe.cache_discipline_check(ctx)
         return
     check_case(ctx, full, {hkey(full["hist"][:-1]): full["prefix_def"]})
